@@ -187,7 +187,7 @@ func implWarnings(rs []klog.Record, now gotime.Time, dis [4]bool) string {
 		for i, n := range warnNames {
 			d[n] = dis[i]
 		}
-		byMsg := map[string]string{"Unclosed open range": warnNames[0], "Entry in the future": warnNames[1], "Overlapping time ranges": warnNames[2], "Total time exceeds 24 hours": warnNames[3]}
+		byMsg := learnWarnMessages()
 		service.CheckForWarnings(func(w service.Warning) {
 			n, ok := byMsg[w.Warning()]
 			if !ok {
@@ -272,4 +272,39 @@ func c06Warnings(env *Env, o *Outcome, text string, data map[string]any) {
 			}
 		}
 	}
+}
+
+// learnWarnMessages finds out which message each of the four checkers uses by provoking it alone, so that the
+// correspondence does not depend on the wording of the messages (only on which checker fires for which record).
+var learnedWarnMessages map[string]string
+
+func learnWarnMessages() map[string]string {
+	if learnedWarnMessages != nil {
+		return learnedWarnMessages
+	}
+	m := map[string]string{}
+	probe := func(text string, now gotime.Time, kind int) {
+		rs, _, errs := parser.NewSerialParser().Parse(text)
+		if errs != nil {
+			return
+		}
+		d := service.NewDisabledCheckers()
+		for i, n := range warnNames {
+			d[n] = i != kind
+		}
+		safely(func() {
+			service.CheckForWarnings(func(w service.Warning) {
+				if _, seen := m[w.Warning()]; !seen {
+					m[w.Warning()] = warnNames[kind]
+				}
+			}, now, rs, d)
+		})
+	}
+	now := gotime.Date(2021, 3, 10, 12, 0, 0, 0, gotime.UTC)
+	probe("2021-03-01\n    8:00 - ?\n", now, 0)
+	probe("2021-04-01\n    1h\n", now, 1)
+	probe("2021-03-01\n    8:00 - 10:00\n    9:00 - 11:00\n", now, 2)
+	probe("2021-03-01\n    25h\n", now, 3)
+	learnedWarnMessages = m
+	return m
 }
